@@ -28,3 +28,37 @@ func Split(b []byte) ([][]byte, error) {
 	}
 	return out, nil
 }
+
+// XRWalked is one report block found by the independent RFC 3611 walker.
+type XRWalked struct {
+	BT, TS uint8
+	Words  int // block length field
+	Body   []byte
+}
+
+// WalkXR splits an extended report into its blocks using only the block
+// length fields.
+func WalkXR(b []byte) (ssrc uint32, blocks []XRWalked, err error) {
+	if len(b) < 8 || b[0]>>6 != 2 || b[1] != 207 {
+		return 0, nil, errors.New("not an XR packet")
+	}
+	total := 4 * (int(binary.BigEndian.Uint16(b[2:])) + 1)
+	if total != len(b) {
+		return 0, nil, errors.New("length field does not match the packet size")
+	}
+	ssrc = binary.BigEndian.Uint32(b[4:])
+	pos := 8
+	for pos < total {
+		if pos+4 > total {
+			return 0, nil, errors.New("truncated block header")
+		}
+		w := int(binary.BigEndian.Uint16(b[pos+2:]))
+		end := pos + 4*(w+1)
+		if end > total {
+			return 0, nil, errors.New("block length beyond the packet")
+		}
+		blocks = append(blocks, XRWalked{BT: b[pos], TS: b[pos+1], Words: w, Body: b[pos+4 : end]})
+		pos = end
+	}
+	return ssrc, blocks, nil
+}
